@@ -86,6 +86,9 @@ func revTrace(sc *RevScenario, obs *RevObs) []string {
 			}
 			k := fmt.Sprintf("%s#%d", x.Key, x.Attempt)
 			add(x.Rec.TBegin, k, 1, fmt.Sprintf("xchg.begin slot=%s kind=%s cert=%d method=%s fault=%s", k, x.Kind, x.CertPos, x.Rec.Method, x.Fault))
+			if x.Rec.CancelledHere {
+				add(x.Rec.TClosed, k, 4, fmt.Sprintf("cancel at body close of slot=%s", k))
+			}
 			if x.Rec.Returned {
 				d := ""
 				switch sv := x.Rec.Served.(type) {
@@ -192,8 +195,9 @@ func describeRev(sc *RevScenario) any {
 		"profile": sc.Prof.Name, "config": []string{"fault_free", "network_faults", "byzantine", "everything"}[sc.Config],
 		"fetcher": fetcherNames[sc.Fetcher], "discard_cache_error": sc.Discard,
 		"ocsp_timeout_ms": sc.OCSPTimeout.Milliseconds(), "crl_timeout_ms": sc.CRLTimeout.Milliseconds(),
-		"cancel": []string{"none", "before_call", "at", "deadline"}[sc.Cancel], "cancel_after_ms": sc.CancelAfter.Milliseconds(),
-		"panic_at": sc.PanicAt, "worlds": ws,
+		"cancel": []string{"none", "before_call", "at", "deadline", "on_exchange_close"}[sc.Cancel], "cancel_after_ms": sc.CancelAfter.Milliseconds(),
+		"cancel_exchange_selector": sc.CancelXSel, "cancel_prefers_base_crl": sc.CancelXPreferCRL,
+		"panic_at": sc.PanicAt, "panic_cert": sc.PanicCert, "panic_more_certs": sc.PanicCerts, "worlds": ws,
 	}
 }
 
@@ -281,7 +285,7 @@ func countRevStats(sc *RevScenario, obs *RevObs, st *Stats) (fired int) {
 		}
 	}
 	if sc.Cancel != CancelNone {
-		st.Faults[[]string{"", "cancel_before_call", "cancel_at_instant", "context_deadline"}[sc.Cancel]]++
+		st.Faults[[]string{"", "cancel_before_call", "cancel_at_instant", "context_deadline", "cancel_on_exchange_close"}[sc.Cancel]]++
 	}
 	for _, u := range obs.Net.Unplanned {
 		_ = u
